@@ -56,6 +56,8 @@ def run(ctx):
         cases.append(("evolution", i))
     for i in range(8 if quick else 40):
         cases.append(("invalid", i))
+    for i in range(3 if quick else 20):
+        cases.append(("removed-protocols", i))
     for name in ["test", "evolution/model_v2", "image", "tuples", "sandbox"]:
         cases.append(("repo", name))
 
@@ -74,6 +76,14 @@ def run(ctx):
             files = evo.chain_files(chain, outs)
             common.write_tree(base, files)
             pkgdir = os.path.join(base, chain[-1].dir)
+        elif kind == "removed-protocols":
+            # several protocols removed since the previous version: all "Removed protocol" warnings share one source position
+            n = r.randint(3, 8)
+            old = "Keep: !protocol\n  sequence:\n    a: int\n" + "".join("Gone%d: !protocol\n  sequence:\n    x: int\n    y: string\n" % j for j in range(n)) + "R: !record\n  fields:\n    f: int\n    g: float\n"
+            new = "Keep: !protocol\n  sequence:\n    a: long\n    added: int*\nR: !record\n  fields:\n    g: double\n    f: long\n"
+            common.write_tree(base, {"v0/_package.yml": "namespace: Rp\n", "v0/m.yml": old,
+                                     "new/_package.yml": "namespace: Rp\nversions:\n  v0: ../v0\njson:\n  outputDir: ../out/json\npython:\n  outputDir: ../out/python\n", "new/m.yml": new})
+            pkgdir = os.path.join(base, "new")
         elif kind == "invalid":
             pkg = modelgen.gen_corpus_package("c12i%d_%d" % (common.seed(), i), modelgen.GenOpts(max_depth=2, n_defs=(4, 8)), with_import=(i % 2 == 0))
             files = emit.package_files(pkg, None, outs)
